@@ -2,6 +2,7 @@
 
     ElementRaw::set_attribute_internal(attrname, value, file_version)
     ElementRaw::set_attribute_string(attrname, text, version)
+    ElementRaw::set_character_data_internal, character_data, attribute_value, remove_attribute   (node level)
     AutosarVersion::compatible                                     (autosar-data-specification/src/lib.rs)
 
 Contract, from the property ("all elements, attributes and values are permitted in the file's version"; "failed calls change
@@ -52,9 +53,27 @@ TYPES = r'''
 %(version_enum)s
 
 pub enum AutosarDataError { VxOther(u64) }
+#[derive(Clone, Copy)]
 pub struct CharacterData { pub opaque: u64 }
+#[derive(Clone, Copy)]
+pub struct Element { pub opaque: u64 }
+pub enum ElementContent { Element(Element), CharacterData(CharacterData) }
 pub struct Attribute { pub attrname: AttributeName, pub content: CharacterData }
-pub struct ElementRaw { pub elemtype: ElementType, pub attributes: Vec<Attribute> }
+pub struct ElementRaw { pub elemtype: ElementType, pub attributes: Vec<Attribute>, pub content: Vec<ElementContent> }
+impl CharacterData { pub fn clone(&self) -> (r: Self) ensures r == *self { *self } }
+pub fn vx_find_attr_named(a: &Vec<Attribute>, n: AttributeName) -> (r: Option<&Attribute>)
+    ensures match r { Some(x) => exists|i: int| first_named(a@, n, i) && *x == a@[i], None => forall|k: int| 0 <= k < a@.len() ==> (#[trigger] a@[k]).attrname != n }
+{
+    let mut i: usize = 0;
+    while i < a.len()
+        invariant i <= a.len(), forall|k: int| 0 <= k < i ==> (#[trigger] a@[k]).attrname != n,
+        decreases a.len() - i
+    {
+        if a[i].attrname == n { assert(first_named(a@, n, i as int)); return Some(&a[i]); }
+        i += 1;
+    }
+    None
+}
 
 // "the value is acceptable for this character-data spec in this version": check_value / parse are proved against valid() in unit chardata
 pub uninterp spec fn value_ok(v: CharacterData, spec: CharacterDataSpec, ver: u32) -> bool;
@@ -135,6 +154,33 @@ def make_unit(repo_dir):
     assert(attr_permitted(t, attrname, gv, file_version as u32));
     assert(stored(old(self).attributes@, self.attributes@, attrname, gv));
 }''')]),
+        FnSpec('set_character_data_internal', F, impl=IMPL_R, ret='r', nth=0,
+               body_sub=[(r'AutosarDataError::\w+ \{[^{}]*\}', lambda m: 'AutosarDataError::VxOther(0)', 'R39'),
+                         (r'self\.content\.is_empty\(\)', lambda m: '(self.content.len() == 0)', 'R16'),
+                         (r'self\.content\[0\] = ElementContent::CharacterData\(chardata\);', lambda m: 'self.content.set(0, ElementContent::CharacterData(chardata));', 'R40')],
+               requires=['old(self).elemtype.typ < n_dt()'],
+               ensures=['final(self).elemtype == old(self).elemtype && final(self).attributes@ == old(self).attributes@',
+                        'match r { Ok(_) => (t_dt(old(self).elemtype.typ as int).mode == ContentMode::Characters || (t_dt(old(self).elemtype.typ as int).mode == ContentMode::Mixed && old(self).content@.len() <= 1)) '
+                        '&& (t_dt(old(self).elemtype.typ as int).character_data matches Some(cs) && value_ok(chardata, t_cd(cs as int), version as u32)) '
+                        '&& final(self).content@ == (if old(self).content@.len() == 0 { seq![ElementContent::CharacterData(chardata)] } else { old(self).content@.update(0, ElementContent::CharacterData(chardata)) }), '
+                        'Err(_) => final(self).content@ == old(self).content@ }'],
+               proofs=[dict(at='body_start', text='proof { axiom_tables(); }'),
+                       dict(before=r'^\s*return Ok\(\(\)\);', text='proof { if old(self).content@.len() == 0 { assert(self.content@ =~= seq![ElementContent::CharacterData(chardata)]); } }')]),
+        FnSpec('character_data', F, impl=IMPL_R, ret='r', requires=['self.elemtype.typ < n_dt()'],
+               body_sub=[(r'if let Some\(ElementContent::CharacterData\(cdata\)\) = self\.content\.first\(\) \{', lambda m: 'if let ElementContent::CharacterData(cdata) = &self.content[0] {', 'R40')],
+               ensures=['r == (if self.content@.len() == 1 && (t_dt(self.elemtype.typ as int).mode == ContentMode::Characters || t_dt(self.elemtype.typ as int).mode == ContentMode::Mixed) '
+                        '{ match self.content@[0] { ElementContent::CharacterData(c) => Some(c), _ => None } } else { None })'],
+               proofs=[dict(at='body_start', text='proof { axiom_tables(); }')]),
+        FnSpec('attribute_value', F, impl=IMPL_R, ret='r',
+               body_sub=[(r'self\.attributes\.iter\(\)\.find\(\|attr\| attr\.attrname == attrname\)', lambda m: 'vx_find_attr_named(&self.attributes, attrname)', 'R40')],
+               ensures=['match r { Some(v) => exists|i: int| first_named(self.attributes@, attrname, i) && v == self.attributes@[i].content, None => forall|k: int| 0 <= k < self.attributes@.len() ==> (#[trigger] self.attributes@[k]).attrname != attrname }']),
+        FnSpec('remove_attribute', F, impl=IMPL_R, ret='r', requires=['old(self).elemtype.typ < n_dt()'],
+               ensures=['final(self).elemtype == old(self).elemtype && final(self).content@ == old(self).content@',
+                        '!r ==> final(self).attributes@ == old(self).attributes@',
+                        'r ==> exists|i: int| 0 <= i < old(self).attributes@.len() && old(self).attributes@[i].attrname == attrname && final(self).attributes@ == old(self).attributes@.remove(i) '
+                        '&& (exists|k: int| attr_at(old(self).elemtype.typ as int, k, attrname) && !attrs_of(old(self).elemtype.typ as int)[k].2)'],
+               loops={0: dict(iter_name='it', invariant=['self.attributes@ == old(self).attributes@', 'self.elemtype == old(self).elemtype', 'self.content@ == old(self).content@', 'self.elemtype.typ < n_dt()'])},
+               proofs=[dict(at='body_start', text='proof { axiom_tables(); }')]),
         FnSpec('set_attribute_string', F, impl=IMPL_R, ret='r', body_sub=R40, requires=['old(self).elemtype.typ < n_dt()'],
                ensures=[post[0], post[1] % dict(V='version as u32', same='')],
                proofs=[dict(after=r'if let Some\(value\) = CharacterData::parse\(stringvalue, character_data_spec, version\) \{', indent=True, text='let ghost gv = value;'),
@@ -153,5 +199,6 @@ def make_unit(repo_dir):
              dropped=['ElementRaw is {elemtype, attributes: Vec<Attribute>} (SmallVec -> Vec; the other fields are not touched); CharacterData is an opaque value; error payloads opaque (R39)',
                       'find_attribute_spec is a leaf with the contract proved in unit lookups; check_value / parse are leaves tied to value_ok (proved against valid() in unit chardata)',
                       'the replace-or-append block (iter_mut().find(closure)) is replaced by the verified helper vx_store_attribute (rule R40)'])
-    u.leaves.append((lf['find_attribute_spec'], 'lookups'))
+    for name in ('find_attribute_spec', 'ElementType.content_mode', 'chardata_spec'):
+        u.leaves.append((lf[name], 'lookups'))
     return u
